@@ -533,7 +533,88 @@ def range_classes(lines, kern_export_only=False):
         if core_or_bar:
             first = not seen_measure
             if first or 'bar' in ks:
-                if len(paths) > nsp or ks & {'split', 'join', 'term'}:
+                sp = [p['spine'] for p in paths]
+                if len(sp) != len(set(sp)) or ks & {'split', 'join', 'term'}:
                     cl.add('start_inside_split')
             seen_measure = True
     return cl
+
+
+# ------------------------------------------------------------------------------------------------
+# core scores of C08: signatures only before the first measure, every split re-joined before the next barline
+# ------------------------------------------------------------------------------------------------
+def core_score(r, max_measures=6):
+    g = DocGen(r, chords='core', kern_only=True)
+    nsp = r.choice([1, 1, 2, 3])
+    lines = [{'ev': 'header', 'cells': [lit('hdr', KERN) for _ in range(nsp)]}]
+    for kind, pool in (('clef', CLEFS[:8]), ('keysig', KEYSIGS), ('timesig', TIMESIGS)):
+        if r.random() < 0.85:
+            lines.append({'ev': 'row', 'cells': [lit(kind, r.choice(pool)) for _ in range(nsp)]})
+
+    def data(n):
+        lines.append({'ev': 'row', 'cells': [g.data_cell(KERN) for _ in range(n)]})
+    if r.random() < 0.3:                                    # pickup
+        for _ in range(r.randint(1, 2)):
+            data(nsp)
+    nm = r.randint(1, max_measures)
+    for m in range(1, nm + 1):
+        b = g.bar(m)
+        lines.append({'ev': 'row', 'cells': [dict(b) for _ in range(nsp)]})
+        for _ in range(r.randint(1, 3)):
+            data(nsp)
+        if r.random() < 0.35:
+            i = r.randrange(nsp)
+            lines.append({'ev': 'row', 'cells': [SPLIT() if j == i else NULLI() for j in range(nsp)]})
+            n = nsp + 1
+            nested = r.random() < 0.3
+            if nested:
+                k = r.choice([i, i + 1])
+                lines.append({'ev': 'row', 'cells': [SPLIT() if j == k else NULLI() for j in range(n)]})
+                n += 1
+            for _ in range(r.randint(1, 2)):
+                data(n)
+            if nested:
+                if r.random() < 0.5:                        # join all three at once
+                    lines.append({'ev': 'row', 'cells': [JOIN() if i <= j <= i + 2 else NULLI() for j in range(n)]})
+                    n -= 2
+                else:
+                    lines.append({'ev': 'row', 'cells': [JOIN() if j in (k, k + 1) else NULLI() for j in range(n)]})
+                    n -= 1
+                    if r.random() < 0.5:
+                        data(n)
+                    lines.append({'ev': 'row', 'cells': [JOIN() if j in (i, i + 1) else NULLI() for j in range(n)]})
+                    n -= 1
+            else:
+                lines.append({'ev': 'row', 'cells': [JOIN() if j in (i, i + 1) else NULLI() for j in range(n)]})
+                n -= 1
+            if r.random() < 0.5:
+                data(nsp)
+    if r.random() < 0.6:
+        lines.append({'ev': 'row', 'cells': [mk_bar(dbl=True) for _ in range(nsp)]})
+    lines.append({'ev': 'row', 'cells': [TERM() for _ in range(nsp)]})
+    return lines, [KERN] * nsp
+
+
+CORE_KINDS = {'note', 'chord', 'null', 'nulli', 'err'}
+
+
+def measure_rows(lines, types):
+    """indices (into `lines`) of the lines that start a measure, by the measure rule, from the description only."""
+    starts = []
+    tracker = {id(e): paths for e, paths in path_tracker(lines)}
+    for i, e in enumerate(lines):
+        if e['ev'] != 'row':
+            continue
+        paths = tracker[id(e)]
+        hit = False
+        for c, p in zip(e['cells'], paths):
+            if c['k'] in ('split', 'join', 'term', 'fcom'):
+                continue
+            kernlike = types[p['spine']] in KERNLIKE
+            if c['k'] == 'bar':
+                hit = True
+            elif not starts and (c['k'] in ('null', 'nulli') or (kernlike and c['k'] in CORE_KINDS)):
+                hit = True
+        if hit:
+            starts.append(i)
+    return starts
